@@ -385,7 +385,7 @@ def check(ctx):
     ctx.rule("R04.6", "the structural images of a functor are right: swaps realise the requested permutation (C10), sums are mapped and tensored term-wise in order (C02 R02.3)")
     ctx.depend("R04.6", "C10", "F(Swap(x, y)) = ar_factory.swap(F(x), F(y)): the swap of the target category is the requested permutation", mod="discopy.monoidal")
     ctx.depend("R04.6", "C09", "the tensor functor (the functor behind every evaluation) keeps its loop invariant on boxes and on swaps", rules={"R09.1"}, mod="discopy.tensor")
-    ctx.depend("R04.6", "C02", "F(f + g) = F(f) + F(g), and sums distribute over composition and tensor with the terms in order", rules={"R02.3"}, mod="discopy.monoidal")
+    ctx.depend("R04.6", "C02", "F folds the images with `then`, n-ary and left to right, dispatching on the running result (a sum met on the way distributes); F(f + g) = F(f) + F(g) with the terms in order", rules={"R02.1", "R02.3"}, mod="discopy.monoidal")
 
     ctx.floor("R04.1", 1)
     ctx.floor("R04.2", 4)
